@@ -53,7 +53,8 @@ Lemma resolve_as_tok c k r s id g t : resolve_as c k r s = RTok id g t -> r = TR
 Proof.
   unfold resolve_as. destruct r as [i|]; [|discriminate]. destruct (find_tok i s) as [[g0 t0]|] eqn:E; [|discriminate].
   destruct (t_cls t0); try discriminate;
-    (destruct (tcls_eqb _ k); [|destruct (c_shared_key c); discriminate]); intros H; inversion H; subst; auto.
+    (destruct (tcls_eqb _ k); [|destruct (c_shared_key c); discriminate]); (destruct (g_removed g0); [discriminate|]);
+    intros H; inversion H; subst; auto.
 Qed.
 
 Theorem inv_step c s o : inv c s -> inv c (fst (step c s o)).
@@ -64,7 +65,7 @@ Proof.
     unfold do_authorize in *.
     set (g := mkGrant user client false (now s + c_grant_exp c)
                       match scope with [] => [] | _ :: _ => filter_scopes c client scope end scope (redirect_of client)
-                      (now s + c_authn_valid c)) in *.
+                      (now s + c_authn_valid c) false) in *.
     set (s1 := mkSt (now s) (grants s ++ [g]) (toks s) (parsed s)) in *.
     assert (Ht1 : toks_good s1).
     { unfold toks_good, s1; cbn. eapply toks_good_grants; [exact Ht|]. intros gi g0 H0. exists g0. split; auto. now apply nth_app_old. }
@@ -139,6 +140,7 @@ Proof.
     + split; [|split]; [now apply good_upd_revoke|eapply parsed_good_mono; eauto|exact Hg].
   - (* RevokeGrant *)
     destruct (nth_error (grants s) gi) as [g0|] eqn:E; cbn [fst] in *; [|repeat split; assumption].
+    destruct (g_removed g0); cbn [fst] in *; [repeat split; assumption|].
     assert (Hl : length (grants (revoke_grant_at gi s)) = length (grants s)) by (unfold revoke_grant_at; cbn; apply len_upd).
     split; [|split]; [|eapply parsed_good_mono; eauto|eapply grants_good_gext; eauto].
     unfold revoke_grant_at. apply (good_map_revoke (fun t => Nat.eqb (t_grant t) gi)).
@@ -148,13 +150,32 @@ Proof.
     * rewrite nth_upd_other by auto. eauto.
   - (* RevokeClient *)
     destruct (nth_error (grants s) gi) as [g0|] eqn:E; cbn [fst] in *; [|repeat split; assumption].
+    destruct (existsb (live_branch g0) (grants s)); cbn [fst] in *; [|repeat split; assumption].
     assert (Hl : length (grants (revoke_branch g0 s)) = length (grants s)) by (unfold revoke_branch; cbn; apply map_length).
     split; [|split]; [|eapply parsed_good_mono; eauto|eapply grants_good_gext; eauto].
     unfold revoke_branch, toks_good; cbn.
-    assert (Hgs : Forall (scope_good (List.map (fun h => if same_branch g0 h then revoke_g h else h) (grants s))) (toks s)).
-    { eapply toks_good_grants; [exact Ht|]. intros k g H0. rewrite nth_error_map, H0. cbn. destruct (same_branch g0 g); eauto. }
+    assert (Hgs : Forall (scope_good (List.map (fun h => if live_branch g0 h then revoke_g h else h) (grants s))) (toks s)).
+    { eapply toks_good_grants; [exact Ht|]. intros k g H0. rewrite nth_error_map, H0. cbn. destruct (live_branch g0 g); eauto. }
     rewrite Forall_forall in *. intros t Hin. apply in_map_iff in Hin as (t0&<-&Hin0).
     destruct (Hgs _ Hin0) as (g&G1&G2&G3). destruct (in_branch g0 s (t_grant t0)); exists g; auto.
+  - (* RemoveGrant *)
+    destruct (nth_error (grants s) gi) as [g0|] eqn:E; cbn [fst] in *; [|repeat split; assumption].
+    assert (Hl : length (grants (upd_grant gi remove_g s)) = length (grants s)) by (unfold upd_grant; cbn; apply len_upd).
+    split; [|split]; [|eapply parsed_good_mono; eauto|eapply grants_good_gext; eauto].
+    unfold toks_good, upd_grant; cbn. eapply toks_good_grants; [exact Ht|].
+    intros k g H0. destruct (Nat.eq_dec gi k) as [->|N].
+    * rewrite nth_upd_same, H0. cbn. eauto.
+    * rewrite nth_upd_other by auto. eauto.
+  - (* RevokeUser *)
+    destruct (nth_error (grants s) gi) as [g0|] eqn:E; cbn [fst] in *; [|repeat split; assumption].
+    destruct (existsb (live_user g0) (grants s)); cbn [fst] in *; [|repeat split; assumption].
+    assert (Hl : length (grants (revoke_user g0 s)) = length (grants s)) by (unfold revoke_user; cbn; apply map_length).
+    split; [|split]; [|eapply parsed_good_mono; eauto|eapply grants_good_gext; eauto].
+    unfold revoke_user, toks_good; cbn.
+    assert (Hgs : Forall (scope_good (List.map (fun h => if live_user g0 h then revoke_g h else h) (grants s))) (toks s)).
+    { eapply toks_good_grants; [exact Ht|]. intros k g H0. rewrite nth_error_map, H0. cbn. destruct (live_user g0 g); eauto. }
+    rewrite Forall_forall in *. intros t Hin. apply in_map_iff in Hin as (t0&<-&Hin0).
+    destruct (Hgs _ Hin0) as (g&G1&G2&G3). destruct (in_user g0 s (t_grant t0)); exists g; auto.
   - (* Tick *) repeat split; assumption.
 Qed.
 
